@@ -623,3 +623,34 @@ def p16e_failed_merge_rotates(ctx):
             pth = path_to(b, [sbb], lambda x: x in goal, blocked_edges=lambda e: e.kind == "unwind" or (e.src, e.dst) in rok)
         r.add(f, "every return after a re-point rotated the active file above the outputs", not bad, where(b, sbb), "" if not bad else "a return of kind %s is reachable after the re-point without new_active_datafile: the writer keeps appending to an id below the merge output (an acknowledged overwrite made after the failed merge reverts on reopen)" % sorted(bad), describe_path(b, pth) if pth else None)
     return r
+
+
+def s13c_counters_start_at_zero(ctx):
+    r = RuleResult(
+        "S13c",
+        "per-file accounting starts from nothing: LogStatistics::default() — what `stats.entry(id).or_default()` creates the first time a file is booked — builds every counter as zero (the derived impl, or a literal whose fields are 0 / integer defaults). Every later figure is this start value plus the booked events, so a non-zero start is an error in every file's statistics that no event rule can see",
+        floor=3,
+    )
+    prog = ctx.prog
+    ty = "storage::bitcask::log::LogStatistics"
+    bs = [b for b in prog.bodies.values() if b.path == "<%s as std::default::Default>::default" % ty]
+    if len(bs) != 1:
+        r.unrec("LogStatistics", "Default::default ×%d" % len(bs), "src/storage/bitcask/log.rs", "expected one impl (derived or written)")
+        return r
+    b = bs[0]
+    lits = []
+    for bb in sorted(b.live_blocks()):
+        if b.blocks[bb]["cleanup"]:
+            continue
+        for st in b.blocks[bb]["stmts"]:
+            if st["k"] == "assign" and st["rv"]["k"] == "agg" and st["rv"].get("ak") == "adt" and strip_generics(st["rv"]["adt"]) == ty:
+                lits.append((bb, st))
+    if len(lits) != 1:
+        r.unrec("LogStatistics", "struct literal in default() ×%d" % len(lits), short_span(b.span), "expected one")
+        return r
+    bb, st = lits[0]
+    for fname, op in zip(st["rv"]["fields"], st["rv"]["ops"]):
+        o = peel(expand(prog, b.origin_operand(op)))
+        z = const_int(o) == 0 or (o[0] == "call" and o[1] and o[1].endswith("Default::default"))
+        r.add("LogStatistics", "default().%s is zero" % fname, z, where(b, bb), "" if z else "starts at %s" % origin_str(o)[:60])
+    return r
